@@ -4,6 +4,7 @@ import (
 	"bufio"
 	"fmt"
 	"reflect"
+	"runtime/debug"
 	"strings"
 	"unsafe"
 
@@ -11,7 +12,7 @@ import (
 )
 
 func init() {
-	components["bip"] = &component{gen: bipGen, enum: bipEnum, run: bipRun}
+	components["bip"] = &component{gen: bipGen, enum: bipEnum, run: bipRun, direct: bipDirect}
 }
 
 // Script: "new <size>" then any of claim n | commit n | head | consume n | committed | reset.
@@ -62,6 +63,10 @@ func bipGen(r *rng, maxops int, w *bufio.Writer) {
 
 // enum <size> <len>: every sequence of <len> operations over a small argument set.
 func bipEnum(args []string, w *bufio.Writer) {
+	if args[0] == "huge" {
+		bipHuge(atoi(args[1]), w)
+		return
+	}
 	size, depth := atoi(args[0]), atoi(args[1])
 	var alphabet []string
 	for _, a := range []int{0, 1, size / 2, size} {
@@ -85,6 +90,48 @@ func bipEnum(args []string, w *bufio.Writer) {
 		}
 	}
 	rec(nil)
+}
+
+// enum huge <k>: two buffers whose offsets need more than 31 and more than 32 bits (2 GiB + 4 KiB, 4 GiB + 4 KiB), one script
+// each. The trace carries offsets and lengths only and no byte of the buffers is ever stored to, so they cost address space, not
+// memory (smaller one first: a block the Go runtime recycles would be cleared, which makes it resident); with less than 12 GiB
+// available no script is produced. Per buffer: the "two chunks around the 2^31 / 2^32 offset, a third above it, consume, claim
+// everything" workflow, then <k> pseudo-random segments over arguments at the boundaries, most of them begun with Reset.
+func bipHuge(k int, w *bufio.Writer) {
+	if avail := memAvailableKiB(); avail < 12<<20 || ^uint(0)>>63 == 0 {
+		return
+	}
+	for idx, size := range []int{1<<31 + 4096, 1<<32 + 4096} {
+		edge := size - 4096
+		first := edge - 8
+		fmt.Fprintf(w, "# script %d\n! new %d\n! claim %d\n! commit 0\n! claim %d\n! commit %d\n! claim 64\n! commit 64\n! committed\n! head\n", idx, size, size, first, first)
+		fmt.Fprintf(w, "! claim 33\n! commit 33\n! consume %d\n! head\n! claim %d\n! commit %d\n! head\n! consume 97\n! head\n! committed\n! consume %d\n! claim %d\n! commit 0\n", first, first-100, first-100, size, size)
+		r := newRng(uint64(size)*31 + 7)
+		arg := func() int {
+			return r.pick(size, size-8, edge-8, edge, edge+1, 1<<31, 1<<31-1, 64, 33, 4096, size/2, size/2+1, 0, 1, size-edge, r.intn(size))
+		}
+		for j := 0; j < k; j++ {
+			if r.intn(4) != 0 {
+				fmt.Fprintf(w, "! reset\n")
+			}
+			for i := 0; i < 12; i++ {
+				switch r.intn(8) {
+				case 0, 1, 2:
+					a := arg()
+					fmt.Fprintf(w, "! claim %d\n! commit %d\n", a, r.pick(a, a, a/2+1, arg()))
+				case 3:
+					fmt.Fprintf(w, "! claim %d\n", arg())
+				case 4, 5:
+					fmt.Fprintf(w, "! head\n! consume %d\n", arg())
+				case 6:
+					fmt.Fprintf(w, "! committed\n! head\n")
+				default:
+					fmt.Fprintf(w, "! commit %d\n", arg())
+				}
+			}
+			fmt.Fprintf(w, "! head\n! committed\n")
+		}
+	}
 }
 
 func dedup(xs []string) []string {
@@ -115,6 +162,10 @@ func bipRun(script []string, w *bufio.Writer) {
 		p := guard(func() {
 			switch f[0] {
 			case "new":
+				if b != nil && b.Size() > 1<<30 {
+					b = nil
+					debug.FreeOSMemory() // the previous huge buffer goes back to the system before the next one is made
+				}
 				b = sonic.NewBipBuffer(atoi(f[1]))
 				base = bipBase(b)
 				out = "unit"
@@ -159,4 +210,155 @@ func bipBase(b *sonic.BipBuffer) uintptr {
 	s := b.Claim(b.Size())
 	b.Commit(0)
 	return uintptr(unsafe.Pointer(&s[0]))
+}
+
+// ---- direct monitor: the byte-queue monitor of Spec/Bip.lean over intervals, for buffers too large for its cell list -------
+
+type bipIv struct{ lo, n int }
+
+// bipDirect replays the `enum huge` scripts against an interval form of the C10 monitor (Sonic.Spec.Bip keeps one list entry per
+// queued cell, which a 4 GiB buffer does not allow): the queue of committed, unconsumed cells is a list of (offset, length)
+// chunks, oldest first; the checks are those of Spec.Bip.step, clause by clause.
+func bipDirect(seed uint64, tier string, args []string, w *bufio.Writer) {
+	k := 40
+	if tier == "thorough" {
+		k = 4000
+	}
+	var sb strings.Builder
+	bw := bufio.NewWriter(&sb)
+	bipHuge(k, bw)
+	bw.Flush()
+	fails, ops, scripts := 0, 0, 0
+	fail := func(format string, a ...any) {
+		fails++
+		if fails <= 5 {
+			fmt.Fprintf(w, "DIRECT-FAIL key=bip.direct.huge-buffer %s\n", fmt.Sprintf(format, a...))
+		}
+	}
+	var b *sonic.BipBuffer
+	var base uintptr
+	var size, cLo, cLen int
+	var q []bipIv
+	var hist []string
+	view := func(s []byte) (int, int) {
+		if len(s) == 0 {
+			return 0, 0
+		}
+		return int(uintptr(unsafe.Pointer(&s[0])) - base), len(s)
+	}
+	runLen := func() int {
+		if len(q) == 0 {
+			return 0
+		}
+		n, end := q[0].n, q[0].lo+q[0].n
+		for _, iv := range q[1:] {
+			if iv.lo != end {
+				break
+			}
+			n, end = n+iv.n, end+iv.n
+		}
+		return n
+	}
+	dead := false
+	for _, line := range strings.Split(sb.String(), "\n") {
+		if !strings.HasPrefix(line, "! ") {
+			if strings.HasPrefix(line, "# script") {
+				dead = false
+			}
+			continue
+		}
+		if dead {
+			continue
+		}
+		f := strings.Fields(line[2:])
+		hist = append(hist, line[2:])
+		if len(hist) > 12 {
+			hist = hist[len(hist)-12:]
+		}
+		bad := func(format string, a ...any) {
+			fail("buffer of %d bytes, queue %v, claim (%d,%d): %s; last calls: %v", size, q, cLo, cLen, fmt.Sprintf(format, a...), hist)
+			dead = true
+		}
+		if guard(func() {
+			ops++
+			switch f[0] {
+			case "new":
+				scripts++
+				size = atoi(f[1])
+				b = sonic.NewBipBuffer(size)
+				base = bipBase(b)
+				q, cLo, cLen, hist = nil, 0, 0, hist[:0]
+			case "claim":
+				n := atoi(f[1])
+				lo, ln := view(b.Claim(n))
+				want := -1
+				if len(q) == 0 {
+					want = minInt(n, size)
+				}
+				switch {
+				case ln < 0 || ln > n || (ln > 0 && (lo < 0 || lo+ln > size)):
+					bad("Claim(%d) returned the slice (%d,%d)", n, lo, ln)
+				case want >= 0 && ln != want:
+					bad("Claim(%d) on an empty buffer granted %d bytes, want %d", n, ln, want)
+				default:
+					for _, iv := range q {
+						if ln > 0 && lo < iv.lo+iv.n && iv.lo < lo+ln {
+							bad("Claim(%d) returned (%d,%d), which overlaps the queued chunk (%d,%d)", n, lo, ln, iv.lo, iv.n)
+							break
+						}
+					}
+				}
+				cLo, cLen = lo, ln
+				if b.Claimed() != ln {
+					bad("Claimed() = %d after a claim of %d bytes", b.Claimed(), ln)
+				}
+			case "commit":
+				n := atoi(f[1])
+				lo, ln := view(b.Commit(n))
+				want := minInt(n, cLen)
+				if want < 0 {
+					want = 0
+				}
+				if ln != want || (want > 0 && lo != cLo) {
+					bad("Commit(%d) returned (%d,%d), want (%d,%d)", n, lo, ln, cLo, want)
+				}
+				if want > 0 {
+					q = append(q, bipIv{cLo, want})
+				}
+				cLo, cLen = 0, 0
+			case "head":
+				lo, ln := view(b.Head())
+				if ln != runLen() || (ln > 0 && lo != q[0].lo) {
+					bad("Head() is (%d,%d), want the first contiguous run of the queue (%d bytes)", lo, ln, runLen())
+				}
+			case "consume":
+				n := atoi(f[1])
+				b.Consume(n)
+				k := minInt(n, runLen())
+				for k > 0 && len(q) > 0 {
+					if q[0].n <= k {
+						k -= q[0].n
+						q = q[1:]
+					} else {
+						q[0] = bipIv{q[0].lo + k, q[0].n - k}
+						k = 0
+					}
+				}
+			case "committed":
+				total := 0
+				for _, iv := range q {
+					total += iv.n
+				}
+				if got := b.Committed(); got != total {
+					bad("Committed() = %d, want %d", got, total)
+				}
+			case "reset":
+				b.Reset()
+				q, cLo, cLen = nil, 0, 0
+			}
+		}) {
+			bad("panic in %s", line[2:])
+		}
+	}
+	fmt.Fprintf(w, "DIRECT-STAT {\"bip_huge_buffers\": %d, \"bip_huge_operations\": %d, \"bip_direct_failures\": %d}\n", scripts, ops, fails)
 }
